@@ -186,6 +186,12 @@ def run_loop(ex, node, st, spec, cond_fn, bind_fn, n_term, keep_fn, label):
     if ex.ctx.feasible(body_st):
         gens = _heap_gens(body_st)
         bind_fn(body_st, it)
+        variant0 = None
+        if spec.decreases is not None:
+            # termination: an integer measure that is non-negative whenever another iteration starts and strictly
+            # smaller when the next one starts (evaluated on the state at the loop head, before the body runs)
+            variant0 = vals.to_int_term(SE(body_st, it).ev(spec.decreases))
+            ex.ctx.oblige(body_st, "loop-variant", f"{label}:bounded-below", variant0 >= 0, node)
         if spec.write_frame is not None:
             cs_ref = SpecEval(ex, body_st, env0(body_st, it)).ev(spec.write_frame[0])
             body_st.heap[cs_ref.oid].allowed = list(spec.write_frame[1])
@@ -199,8 +205,9 @@ def run_loop(ex, node, st, spec, cond_fn, bind_fn, n_term, keep_fn, label):
             if sig[0] in ("next", "continue"):
                 for lab, src in spec.invariant.items():
                     oblige_spec(ex, st1, "inv-preserve", f"{label}:{lab}", SE(st1, it + 1).ev(src), node)
-                if spec.decreases is not None:
-                    pass
+                if variant0 is not None:
+                    v1 = vals.to_int_term(SE(st1, it + 1).ev(spec.decreases))
+                    ex.ctx.oblige(st1, "loop-variant", f"{label}:decreases", v1 < variant0, node)
             elif sig[0] == "break":
                 yield st1, Signal.NEXT
             else:
